@@ -65,37 +65,23 @@ theorem trimApply_eq_posixTrim (pcs : List PatChar) (side : TrimSide) (len : Tri
 /-- what `attr_fnmatch.rs` reads of an attributed character -/
 def projAttr (c : AttrChar) : Fnmatch.AttrChar := ⟨c.value, c.isQuoted, c.isQuoting⟩
 
+theorem any_nonQuoting_proj (t : List AttrChar) :
+    (t.map projAttr).any (fun c => !c.isQuoting) = t.any (fun c => !c.isQuoting) := by
+  induction t with
+  | nil => rfl
+  | cons c t ih => simp [List.any_cons, projAttr, ih]
+
 theorem applyEscapesGo_proj : ∀ (cs : List AttrChar) (q : Bool),
     (applyEscapesGo q cs).map projAttr = Fnmatch.applyEscapesAux q (cs.map projAttr)
   | [], q => by simp [applyEscapesGo, Fnmatch.applyEscapesAux]
-  | [c], q => by
-    cases q <;> simp [applyEscapesGo, Fnmatch.applyEscapesAux, projAttr]
-  | c :: d :: t, q => by
-    have ih1 := applyEscapesGo_proj (d :: t) true
-    have ih2 := applyEscapesGo_proj (d :: t) false
-    rw [applyEscapesGo]
-    simp only [List.map_cons] at ih1 ih2 ⊢
-    rw [Fnmatch.applyEscapesAux]
-    generalize hc' : (if q = true then { c with isQuoted := true } else c) = c'
-    have hp : (if q = true then { projAttr c with isQuoted := true } else projAttr c) = projAttr c' := by
-      subst hc'; cases q <;> rfl
-    simp only [hp]
-    have hne : (projAttr d :: List.map projAttr t ≠ []) = True := by simp
-    by_cases h : c'.value = '\\' ∧ c'.isQuoting = false ∧ c'.isQuoted = false
-    · obtain ⟨h1, h2, h3⟩ := h
-      have e1 : (projAttr c').value = '\\' := h1
-      have e2 : (projAttr c').isQuoting = false := h2
-      have e3 : (projAttr c').isQuoted = false := h3
-      simp only [h1, h2, h3, e1, e2, e3, hne, and_self, if_true, beq_self_eq_true, Bool.not_false, Bool.and_self,
-        List.map_cons, ih1]
-      rfl
-    · have h' : ¬ ((c'.value == '\\' && !c'.isQuoting && !c'.isQuoted) = true) := by
-        intro hh; apply h
-        simp only [Bool.and_eq_true, beq_iff_eq, Bool.not_eq_true'] at hh
-        exact ⟨hh.1.1, hh.1.2, hh.2⟩
-      have h'' : ¬ ((projAttr c').value = '\\' ∧ (projAttr c').isQuoting = false ∧ (projAttr c').isQuoted = false ∧ True) := by
-        intro hh; exact h ⟨hh.1, hh.2.1, hh.2.2.1⟩
-      simp only [h', hne, h'', if_false, List.map_cons, ih2, Bool.false_eq_true]
+  | a :: t, q => by
+    have ih1 := applyEscapesGo_proj t true
+    have ih2 := applyEscapesGo_proj t false
+    have hany := any_nonQuoting_proj t
+    rcases a with ⟨v, o, qd, qg⟩
+    cases q <;> cases qd <;> cases qg <;> by_cases hv : v = '\\' <;>
+      cases hA : t.any (fun c => !c.isQuoting) <;>
+      simp [applyEscapesGo, Fnmatch.applyEscapesAux, projAttr, hv, hA, hany, ← ih1, ← ih2]
 
 theorem toPatternChars_proj : ∀ (cs : List AttrChar),
     toPatternChars cs = Fnmatch.toPatternChars (cs.map projAttr)
